@@ -9,7 +9,7 @@
    is [joinc cs] (names joined with '/'), and cs <> [] excludes the root itself.
    [walk t] = the list of Stat values passed to the callback of fs.Walk(ctx, "", fn), in order. *)
 From Coq Require Import List NArith Bool Sorting.Sorted Sorting.Permutation.
-From FS Require Import Sx Model.Path Model.Stat Model.Tree Model.Walk Proofs.Lex Proofs.PathP Proofs.WalkP Proofs.WalkHL Proofs.WalkSD Proofs.WalkNest.
+From FS Require Import Sx Model.Path Model.Stat Model.Tree Model.Walk Proofs.Lex Proofs.PathP Proofs.WalkP Proofs.WalkHL Proofs.WalkSD Proofs.WalkNest Proofs.WalkNestOrd.
 From FS Require Glue.C09G Proofs.WalkNestGlue.
 Import ListNotations.
 Open Scope N_scope.
@@ -280,6 +280,25 @@ Theorem nested_parent_first :
                      /\ In (joinc (removelast (st_path ost :: sd_name d :: c))) (map fst pre).
 Proof. exact nested_parent_first_proof. Qed.
 
+(* Order for ANY target (Proofs/WalkNestOrd.v).  subdir_walk_any_sorted: every target walk of a
+   SubDirFS succeeds and its callback paths are strictly ascending in protocol path order (hence
+   duplicate-free), each a sub-root name followed by separator-free components.
+   nested_walk_any_sorted: the same for every target walk of a nested composite - the order
+   statement of nested_walk_spec without the restriction to target "". *)
+Theorem subdir_walk_any_sorted :
+  forall ds target, sd_wf ds ->
+  exists cbs, walk_subdirs ds target = Some (cbs, false)
+    /\ StronglySorted (fun p q => compare_path p q = Lt) (map fst cbs)
+    /\ forall p, In p (map fst cbs) -> exists cs, cs <> [] /\ Forall nosep cs /\ p = joinc cs.
+Proof. exact subdir_walk_any_sorted_proof. Qed.
+
+Theorem nested_walk_any_sorted :
+  forall ost inner target,
+  sd_wf inner -> no_linkname inner -> wf_name (st_path ost) -> st_is_dir ost = true ->
+  walk_nested ost inner target = Some (nested_listing ost inner target, false)
+  /\ StronglySorted (fun p q => compare_path p q = Lt) (map fst (nested_listing ost inner target)).
+Proof. exact nested_walk_any_sorted_proof. Qed.
+
 (* the model components of the verdicts of kinds 0902/0905 and 0906 are these model functions *)
 Theorem nested_judge_model :
   forall ost zs target cbs err,
@@ -319,6 +338,8 @@ Print Assumptions subdir_walk_at_hardlinks.
 Print Assumptions nested_walk_any.
 Print Assumptions nested_walk_spec.
 Print Assumptions nested_parent_first.
+Print Assumptions subdir_walk_any_sorted.
+Print Assumptions nested_walk_any_sorted.
 Print Assumptions nested_judge_model.
 Print Assumptions subdir_walk_prefixed.
 Print Assumptions view_walk_sorted.
@@ -443,6 +464,28 @@ Example ex_nested :
              [111; 47; A; 45; B; 47; A; 47; Y] ], false)
   /\ walk_nested (dstat [111]) inner [A] = Some ([], false).
 Proof. vm_compute. repeat split; reflexivity. Qed.
+
+(* the composite of ex_nested meets the hypotheses of the nested theorems *)
+Example ex_nested_hyps :
+  let inner := [ {| sd_stat := dstat [A]; sd_tree := ex_tree |};
+                 {| sd_stat := dstat [A; 45; B]; sd_tree := ex_tree |} ] in
+  sd_wf inner /\ no_linkname inner /\ wf_name (st_path (dstat [111])) /\ st_is_dir (dstat [111]) = true
+  /\ length (nested_listing (dstat [111]) inner [111; 47; A; 45; B; 47; A]) = 5%nat.
+Proof.
+  cbv zeta. split.
+  - split.
+    + assert (Hd : forall n, wf_name_b n = true ->
+                wf_name (sd_name {| sd_stat := dstat n; sd_tree := ex_tree |})
+                /\ st_is_dir (sd_stat {| sd_stat := dstat n; sd_tree := ex_tree |}) = true
+                /\ wf_tree (sd_tree {| sd_stat := dstat n; sd_tree := ex_tree |})).
+      { intros n Hn. split; [apply wf_name_b_sound; exact Hn|]. split; [reflexivity|].
+        apply wf_tree_b_sound. vm_compute. reflexivity. }
+      constructor; [apply Hd; vm_compute; reflexivity|]. constructor; [apply Hd; vm_compute; reflexivity|constructor].
+    + cbn [map sd_name sd_stat st_path dstat]. repeat constructor; cbn [In]; intros H;
+        repeat (destruct H as [H|H]; [discriminate H|]); exact H.
+  - split; [repeat constructor|]. split; [apply wf_name_b_sound; vm_compute; reflexivity|].
+    split; vm_compute; reflexivity.
+Qed.
 
 (* the refutation witness: the model reports m2/f and m2/g as links to m1/f *)
 Example ex_cross_device :
